@@ -42,7 +42,7 @@
 From Coq Require Import List ZArith NArith Bool Arith Permutation Lia.
 From EasyML Require Import Base.Sx Model.Shape Model.Views Model.ViewsMut Model.ViewsConv Proofs.ShapeP
   Proofs.C01P Proofs.C02Lemmas Proofs.C02P Proofs.C02Q Proofs.C02Inj Proofs.C02W Proofs.C02Lin
-  Proofs.C02Mut Proofs.C02Conv Proofs.C02Lay Proofs.C02Spec Proofs.C02ExpandConv.
+  Proofs.C02Mut Proofs.C02Conv Proofs.C02Lay Proofs.C02Spec Proofs.C02ExpandConv Proofs.C02IndexByName.
 Import ListNotations.
 Open Scope N_scope.
 
@@ -384,6 +384,16 @@ Theorem C02_index_ctor_panics_iff : forall c ps,
      place_provided (c_shape c) ps (repeat None (length (c_shape c))) = Some pr).
 Proof. exact index_ctor_panics_iff. Qed.
 
+(* ... and the stored array in terms of the RAW argument, by NAME: one slot per source dimension, slot d
+   holds Some i exactly when the caller's list contains (name of dimension d, i) - whatever order the pairs
+   were given in; with C02_mapping_index / C02_shape_index this fixes which dimensions a selection removes
+   and at which index, for every source view a constructor produced *)
+Theorem C02_index_ctor_by_name : forall c ps c', cwf c -> usize_view c -> index_ctor c ps = Ok c' ->
+  exists pr, c' = CIndex c pr /\ length pr = length (c_shape c) /\
+    forall d i, (d < length (c_shape c))%nat ->
+      (nth d pr None = Some i <-> In (fst (nth d (c_shape c) (0%nat, 0)), i) ps).
+Proof. exact index_ctor_by_name_constructed. Qed.
+
 (* TensorExpansion::from: a repeated extra name, a position beyond D, or a name already in use *)
 Theorem C02_expand_ctor_panics_iff : forall c es,
   (expand_ctor c es = Panic <->
@@ -573,6 +583,7 @@ Print Assumptions C02_stack_spec.
 Print Assumptions C02_shape_chain.
 Print Assumptions C02_chain_beyond_absent.
 Print Assumptions C02_index_ctor_panics_iff.
+Print Assumptions C02_index_ctor_by_name.
 Print Assumptions C02_expand_ctor_panics_iff.
 Print Assumptions C02_rename_ctor_panics_iff.
 Print Assumptions C02_reverse_ctor_panics_iff.
